@@ -70,15 +70,54 @@ def forAllM {α : Type} (f : α → Res Unit) : List α → Res Unit
 /-- `return err` when the condition holds -/
 def failIf (b : Bool) : Res Unit := if b then .err else .ok ()
 
-/-! ## Typed decoding (json-iterator, `ConfigCompatibleWithStandardLibrary`) -/
-def lowerAscii (s : String) : String := s.map Char.toLower
-def upperAscii (s : String) : String := s.map Char.toUpper
+/-! ## Go maps as association lists -/
+def mapGet {β : Type} (m : List (String × β)) (k : String) : Option β :=
+  (m.find? fun kv => kv.1 == k).map (·.2)
 
-/-- struct field lookup: keys are matched case-insensitively; an absent key behaves like `null`. -/
-def field (kvs : List (String × JVal)) (name : String) : JVal :=
-  match kvs.find? (fun kv => lowerAscii kv.1 == lowerAscii name) with
-  | some kv => kv.2
-  | none => .null
+def mapHas {β : Type} (m : List (String × β)) (k : String) : Bool := m.any fun kv => kv.1 == k
+
+/-- `m[k] = v` -/
+def mapSet {β : Type} : List (String × β) → String → β → List (String × β)
+  | [], k, v => [(k, v)]
+  | (k', v') :: rest, k, v => if k' == k then (k', v) :: rest else (k', v') :: mapSet rest k v
+
+/-! ## Typed decoding (json-iterator, `ConfigCompatibleWithStandardLibrary`) -/
+-- (list based so that the kernel can evaluate them on literals)
+def lowerAscii (s : String) : String := String.ofList (s.toList.map Char.toLower)
+def upperAscii (s : String) : String := String.ofList (s.toList.map Char.toUpper)
+
+/-! The decoding rules of json-iterator (`ConfigCompatibleWithStandardLibrary`) that the model relies on — each one is
+  exercised by the boundary table corpus/C13/boundary.ops and the mutation stream:
+
+   R1  `null` → nil pointer / nil slice / nil map / zero value (`""`, `0`, `false`, zero struct); an ABSENT key = `null`.
+   R2  wrong JSON kind for the Go type (string↔number↔bool↔array↔object) → decode error; a number that is not an
+       integer, or outside int64, for an `int` → decode error.
+   R3  struct keys are matched case-insensitively; unknown keys are skipped (whatever their value).
+   R4  `null` ELEMENTS: in a `[]string` → `""`; in a `[]*T` → nil pointer; in a `[]T` / `map[string]T` → zero `T`;
+       in a `map[string]*T` / `map[string][]T` → nil.
+   R5  DUPLICATE keys of a struct: every occurrence is decoded INTO THE SAME Go value, in file order: scalars, pointers
+       to scalars and slices are overwritten (last wins, `null` resets); an object decoded into a map field or a
+       struct-pointer field is MERGED into what the earlier occurrence left (`null` resets it to nil).
+   R6  DUPLICATE keys of a map: each occurrence gets a fresh value; the last one wins (no merging).
+   R7  a type error in a SHADOWED occurrence is still a decode error (`occ` decodes every intermediate state). -/
+
+/-- R5: what a later occurrence does to the value an earlier occurrence of the same struct key left -/
+def mergeOcc : JVal → JVal → JVal
+  | .obj a, .obj b => .obj (a ++ b)
+  | _, v => v
+
+/-- struct field lookup (R1, R3, R5): the successive states of the Go value bound to the key — after the first
+    occurrence, after the second, … (empty = key absent) -/
+def field (kvs : List (String × JVal)) (name : String) : List JVal :=
+  let occs := (kvs.filter fun kv => lowerAscii kv.1 == lowerAscii name).map (·.2)
+  (occs.foldl (fun (acc : List JVal × JVal) v => let s := mergeOcc acc.2 v; (acc.1 ++ [s], s)) ([], .null)).1
+
+/-- decode a struct field: EVERY occurrence is decoded (R7: a type error in a shadowed occurrence is still an error),
+    the value after the last one is the result; an absent key decodes like `null` -/
+def occ {α : Type} (d : JVal → Option α) (states : List JVal) : Option α :=
+  match states with
+  | [] => d .null
+  | _ => (states.mapM d).bind fun l => l.getLast?
 
 def dStr : JVal → Option String
   | .null => some ""
@@ -109,24 +148,14 @@ def dList {α : Type} (d : JVal → Option α) : JVal → Option (List α)
 
 def dMap {α : Type} (d : JVal → Option α) : JVal → Option (List (String × α))
   | .null => some []
-  | .obj kvs => kvs.mapM fun kv => (d kv.2).map fun a => (kv.1, a)
+  | .obj kvs => (kvs.mapM fun kv => (d kv.2).map fun a => (kv.1, a)).map fun l =>
+      l.foldl (fun m kv => mapSet m kv.1 kv.2) []          -- R6: last occurrence of a key wins
   | _ => none
 
-def dStruct {α : Type} (f : (String → JVal) → Option α) : JVal → Option α
-  | .null => f fun _ => .null
+def dStruct {α : Type} (f : (String → List JVal) → Option α) : JVal → Option α
+  | .null => f fun _ => []
   | .obj kvs => f (field kvs)
   | _ => none
-
-/-! ## Go maps as association lists -/
-def mapGet {β : Type} (m : List (String × β)) (k : String) : Option β :=
-  (m.find? fun kv => kv.1 == k).map (·.2)
-
-def mapHas {β : Type} (m : List (String × β)) (k : String) : Bool := m.any fun kv => kv.1 == k
-
-/-- `m[k] = v` -/
-def mapSet {β : Type} : List (String × β) → String → β → List (String × β)
-  | [], k, v => [(k, v)]
-  | (k', v') :: rest, k, v => if k' == k then (k', v) :: rest else (k', v') :: mapSet rest k v
 
 /-! ## host_rule.data -/
 structure HostFile where
@@ -137,10 +166,10 @@ structure HostFile where
 
 def decodeHost : JVal → Option HostFile :=
   dStruct fun g => do
-    let v ← dPtr dStr (g "Version")
-    let dp ← dPtr dStr (g "DefaultProduct")
-    let hs ← dPtr (dMap (dPtr (dList dStr))) (g "Hosts")
-    let ts ← dPtr (dMap (dPtr (dList dStr))) (g "HostTags")
+    let v ← occ (dPtr dStr) (g "Version")
+    let dp ← occ (dPtr dStr) (g "DefaultProduct")
+    let hs ← occ (dPtr (dMap (dPtr (dList dStr)))) (g "Hosts")
+    let ts ← occ (dPtr (dMap (dPtr (dList dStr)))) (g "HostTags")
     pure { version := v, defaultProduct := dp, hosts := hs, hostTags := ts }
 
 /-- the labelled loop `HOST_TAG_CHECK`: is `tag` in some `*hostTagList` -/
@@ -205,8 +234,8 @@ structure VipFile where
 
 def decodeVip : JVal → Option VipFile :=
   dStruct fun g => do
-    let v ← dStr (g "Version")
-    let m ← dMap (dList dStr) (g "Vips")
+    let v ← occ (dStr) (g "Version")
+    let m ← occ (dMap (dList dStr)) (g "Vips")
     pure { version := v, vips := m }
 
 /-- `net.ParseIP(s)` followed by `ip.String()`; `none` = not an IP address -/
@@ -245,22 +274,22 @@ structure RouteFile where
 
 def decodeBasicRule : JVal → Option BasicRuleFile :=
   dStruct fun g => do
-    let h ← dList dStr (g "Hostname")
-    let p ← dList dStr (g "Path")
-    let c ← dPtr dStr (g "ClusterName")
+    let h ← occ (dList dStr) (g "Hostname")
+    let p ← occ (dList dStr) (g "Path")
+    let c ← occ (dPtr dStr) (g "ClusterName")
     pure { hostname := h, path := p, clusterName := c }
 
 def decodeAdvRule : JVal → Option AdvRuleFile :=
   dStruct fun g => do
-    let c ← dPtr dStr (g "Cond")
-    let n ← dPtr dStr (g "ClusterName")
+    let c ← occ (dPtr dStr) (g "Cond")
+    let n ← occ (dPtr dStr) (g "ClusterName")
     pure { cond := c, clusterName := n }
 
 def decodeRoute : JVal → Option RouteFile :=
   dStruct fun g => do
-    let v ← dPtr dStr (g "Version")
-    let b ← dPtr (dMap (dList decodeBasicRule)) (g "BasicRule")
-    let a ← dPtr (dMap (dList decodeAdvRule)) (g "ProductRule")
+    let v ← occ (dPtr dStr) (g "Version")
+    let b ← occ (dPtr (dMap (dList decodeBasicRule))) (g "BasicRule")
+    let a ← occ (dPtr (dMap (dList decodeAdvRule))) (g "ProductRule")
     pure { version := v, basic := b, adv := a }
 
 def countStar (s : String) : Nat := (s.toList.filter (· == '*')).length
@@ -421,84 +450,88 @@ structure ClusterFile where
 
 def decodeFcgi : JVal → Option Unit :=
   dStruct fun g => do
-    let _ ← dMap dStr (g "EnvVars")
-    let _ ← dStr (g "Root")
+    let _ ← occ (dMap dStr) (g "EnvVars")
+    let _ ← occ (dStr) (g "Root")
     pure ()
 
 def decodeBackendBasic : JVal → Option BackendBasic :=
   dStruct fun g => do
-    let p ← dPtr dStr (g "Protocol")
-    let _ ← dPtr dInt (g "TimeoutConnSrv")
-    let _ ← dPtr dInt (g "TimeoutResponseHeader")
-    let _ ← dPtr dInt (g "MaxIdleConnsPerHost")
-    let _ ← dPtr dInt (g "MaxConnsPerHost")
-    let _ ← dPtr dInt (g "RetryLevel")
-    let _ ← dPtr dInt (g "SlowStartTime")
-    let _ ← dPtr dStr (g "OutlierDetectionHttpCode")
-    let _ ← dPtr decodeFcgi (g "FCGIConf")
+    let p ← occ (dPtr dStr) (g "Protocol")
+    let _ ← occ (dPtr dInt) (g "TimeoutConnSrv")
+    let _ ← occ (dPtr dInt) (g "TimeoutResponseHeader")
+    let _ ← occ (dPtr dInt) (g "MaxIdleConnsPerHost")
+    let _ ← occ (dPtr dInt) (g "MaxConnsPerHost")
+    let _ ← occ (dPtr dInt) (g "RetryLevel")
+    let _ ← occ (dPtr dInt) (g "SlowStartTime")
+    let _ ← occ (dPtr dStr) (g "OutlierDetectionHttpCode")
+    let _ ← occ (dPtr decodeFcgi) (g "FCGIConf")
     pure { protocol := p }
 
 def decodeBackendCheck : JVal → Option BackendCheck :=
   dStruct fun g => do
-    let s ← dPtr dStr (g "Schem")
-    let u ← dPtr dStr (g "Uri")
-    let _ ← dPtr dStr (g "Host")
-    let sc ← dPtr dInt (g "StatusCode")
-    let _ ← dPtr dInt (g "FailNum")
-    let sn ← dPtr dInt (g "SuccNum")
-    let _ ← dPtr dInt (g "CheckTimeout")
-    let _ ← dPtr dInt (g "CheckInterval")
+    let s ← occ (dPtr dStr) (g "Schem")
+    let u ← occ (dPtr dStr) (g "Uri")
+    let _ ← occ (dPtr dStr) (g "Host")
+    let sc ← occ (dPtr dInt) (g "StatusCode")
+    let _ ← occ (dPtr dInt) (g "FailNum")
+    let sn ← occ (dPtr dInt) (g "SuccNum")
+    let _ ← occ (dPtr dInt) (g "CheckTimeout")
+    let _ ← occ (dPtr dInt) (g "CheckInterval")
     pure { schem := s, uri := u, statusCode := sc, succNum := sn }
 
 def decodeHashConf : JVal → Option HashConf :=
   dStruct fun g => do
-    let s ← dPtr dInt (g "HashStrategy")
-    let h ← dPtr dStr (g "HashHeader")
-    let _ ← dPtr dBool (g "SessionSticky")
+    let s ← occ (dPtr dInt) (g "HashStrategy")
+    let h ← occ (dPtr dStr) (g "HashHeader")
+    let _ ← occ (dPtr dBool) (g "SessionSticky")
     pure { hashStrategy := s, hashHeader := h }
 
 def decodeGslbBasic : JVal → Option GslbBasic :=
   dStruct fun g => do
-    let _ ← dPtr dInt (g "CrossRetry")
-    let _ ← dPtr dInt (g "RetryMax")
-    let h ← dPtr decodeHashConf (g "HashConf")
-    let b ← dPtr dStr (g "BalanceMode")
+    let _ ← occ (dPtr dInt) (g "CrossRetry")
+    let _ ← occ (dPtr dInt) (g "RetryMax")
+    let h ← occ (dPtr decodeHashConf) (g "HashConf")
+    let b ← occ (dPtr dStr) (g "BalanceMode")
     pure { hashConf := h, balanceMode := b }
 
 def decodeClusterBasic : JVal → Option ClusterBasic :=
   dStruct fun g => do
-    let a ← dPtr dInt (g "TimeoutReadClient")
-    let b ← dPtr dInt (g "TimeoutWriteClient")
-    let c ← dPtr dInt (g "TimeoutReadClientAgain")
-    let d ← dPtr dInt (g "ReqWriteBufferSize")
-    let e ← dPtr dInt (g "ReqFlushInterval")
-    let f ← dPtr dInt (g "ResFlushInterval")
-    let h ← dPtr dBool (g "CancelOnClientClose")
+    let a ← occ (dPtr dInt) (g "TimeoutReadClient")
+    let b ← occ (dPtr dInt) (g "TimeoutWriteClient")
+    let c ← occ (dPtr dInt) (g "TimeoutReadClientAgain")
+    let d ← occ (dPtr dInt) (g "ReqWriteBufferSize")
+    let e ← occ (dPtr dInt) (g "ReqFlushInterval")
+    let f ← occ (dPtr dInt) (g "ResFlushInterval")
+    let h ← occ (dPtr dBool) (g "CancelOnClientClose")
     pure { timeoutReadClient := a, timeoutWriteClient := b, timeoutReadClientAgain := c,
            reqWriteBufferSize := d, reqFlushInterval := e, resFlushInterval := f, cancelOnClientClose := h }
 
 def decodeClusterConf : JVal → Option ClusterConf :=
   dStruct fun g => do
-    let a ← dPtr decodeBackendBasic (g "BackendConf")
-    let b ← dPtr decodeBackendCheck (g "CheckConf")
-    let c ← dPtr decodeGslbBasic (g "GslbBasic")
-    let d ← dPtr decodeClusterBasic (g "ClusterBasic")
+    let a ← occ (dPtr decodeBackendBasic) (g "BackendConf")
+    let b ← occ (dPtr decodeBackendCheck) (g "CheckConf")
+    let c ← occ (dPtr decodeGslbBasic) (g "GslbBasic")
+    let d ← occ (dPtr decodeClusterBasic) (g "ClusterBasic")
     pure { backendConf := a, checkConf := b, gslbBasic := c, clusterBasic := d }
 
 /-- `decoder.Decode(&conf)` with `conf *BfeClusterConf`: JSON `null` makes the pointer nil -/
 def decodeCluster : JVal → Option (Option ClusterFile) :=
   dPtr (dStruct fun g => do
-    let v ← dPtr dStr (g "Version")
-    let c ← dPtr (dMap decodeClusterConf) (g "Config")
+    let v ← occ (dPtr dStr) (g "Version")
+    let c ← occ (dPtr (dMap decodeClusterConf)) (g "Config")
     pure { version := v, config := c })
 
 /-- `BackendBasicCheck` (only the part that can fail; the rest fills defaults) -/
 def backendBasicCheck (c : BackendBasic) : Res BackendBasic :=
-  let c1 : BackendBasic := if c.protocol.isNone then { c with protocol := some "http" } else c
+  -- `if conf.Protocol == nil { conf.Protocol = &"http" }`
+  let c1 : BackendBasic := { c with protocol := some (c.protocol.getD "http") }
   (deref c1.protocol).bind fun p =>
     let p := lowerAscii p
     if p == "http" || p == "tcp" || p == "ws" || p == "fcgi" || p == "h2c" then .ok { c1 with protocol := some p }
     else .err
+
+/-- `strings.HasPrefix(u, "/")` -/
+def startsSlash (u : String) : Bool := u.toList.head? == some '/'
 
 def statusCodeOk (n : Int) : Bool := (100 ≤ n && n ≤ 599) || (0 ≤ n && n ≤ 31)
 
@@ -512,7 +545,7 @@ def backendCheckCheck (c : BackendCheck) : Res BackendCheck :=
     else
       (if s == "http" then
         (deref c.uri).bind fun u =>
-          if !u.startsWith "/" then .err
+          if !startsSlash u then .err
           else (deref c.statusCode).bind fun sc => failIf (!statusCodeOk sc)
        else .ok ()).bind fun _ =>
       (deref c.succNum).bind fun n => if n < 1 then .err else .ok c
@@ -528,7 +561,7 @@ def getCookieKey (h : String) : Option String :=
 
 /-- `HashConfCheck` -/
 def hashConfCheck (c : HashConf) : Res HashConf :=
-  let c : HashConf := if c.hashStrategy.isNone then { c with hashStrategy := some 1 } else c
+  let c : HashConf := { c with hashStrategy := some (c.hashStrategy.getD 1) }
   (deref c.hashStrategy).bind fun s =>
     if s != 0 && s != 1 && s != 2 && s != 3 then .err
     else if s == 0 || s == 2 then
@@ -544,8 +577,8 @@ def hashConfCheck (c : HashConf) : Res HashConf :=
 
 /-- `GslbBasicConfCheck` -/
 def gslbBasicCheck (c : GslbBasic) : Res GslbBasic :=
-  let c : GslbBasic := if c.hashConf.isNone then { c with hashConf := some { hashStrategy := none, hashHeader := none } } else c
-  let c : GslbBasic := if c.balanceMode.isNone then { c with balanceMode := some "WRR" } else c
+  let c : GslbBasic := { hashConf := some (c.hashConf.getD { hashStrategy := none, hashHeader := none }),
+                         balanceMode := some (c.balanceMode.getD "WRR") }
   (deref c.hashConf).bind fun h =>
   (hashConfCheck h).bind fun h' =>
   (deref c.balanceMode).bind fun b =>
@@ -613,9 +646,9 @@ structure GslbFile where
 
 def decodeGslb : JVal → Option GslbFile :=
   dStruct fun g => do
-    let c ← dPtr (dMap (dMap dInt)) (g "Clusters")
-    let h ← dPtr dStr (g "Hostname")
-    let t ← dPtr dStr (g "Ts")
+    let c ← occ (dPtr (dMap (dMap dInt))) (g "Clusters")
+    let h ← occ (dPtr dStr) (g "Hostname")
+    let t ← occ (dPtr dStr) (g "Ts")
     pure { clusters := c, hostname := h, ts := t }
 
 /-- Go `int` addition (64-bit two's complement) -/
@@ -650,16 +683,16 @@ structure CtFile where
 
 def decodeBackend : JVal → Option Backend :=
   dStruct fun g => do
-    let n ← dPtr dStr (g "Name")
-    let a ← dPtr dStr (g "Addr")
-    let p ← dPtr dInt (g "Port")
-    let w ← dPtr dInt (g "Weight")
+    let n ← occ (dPtr dStr) (g "Name")
+    let a ← occ (dPtr dStr) (g "Addr")
+    let p ← occ (dPtr dInt) (g "Port")
+    let w ← occ (dPtr dInt) (g "Weight")
     pure { name := n, addr := a, port := p, weight := w }
 
 def decodeCt : JVal → Option CtFile :=
   dStruct fun g => do
-    let v ← dPtr dStr (g "Version")
-    let c ← dPtr (dMap (dMap (dList (dPtr decodeBackend)))) (g "Config")
+    let v ← occ (dPtr dStr) (g "Version")
+    let c ← occ (dPtr (dMap (dMap (dList (dPtr decodeBackend))))) (g "Config")
     pure { version := v, config := c }
 
 /-- `BackendConfCheck` (with the nil check of fix C13-nil-backend) -/
@@ -692,6 +725,75 @@ def ctLoad (f : CtFile) : Res Nat :=
     (forAllM (fun (kv : String × List (String × List (Option Backend))) =>
         forAllM (fun (sv : String × List (Option Backend)) => subClusterCheck sv.2) kv.2) cfg).bind fun _ =>
     .ok cfg.length
+
+/-! ## name_conf.data (bfe_util/bns/bns_local.go) -/
+structure Instance where
+  host : String
+  port : Int
+  weight : Int
+
+structure NameFile where
+  config : List (String × List Instance)
+
+def decodeInstance : JVal → Option Instance :=
+  dStruct fun g => do
+    let h ← occ (dStr) (g "Host")
+    let p ← occ (dInt) (g "Port")
+    let w ← occ (dInt) (g "Weight")
+    pure { host := h, port := p, weight := w }
+
+def decodeName : JVal → Option NameFile :=
+  dStruct fun g => do
+    let _ ← occ (dStr) (g "Version")
+    let c ← occ (dMap (dList decodeInstance)) (g "Config")
+    pure { config := c }
+
+/-- `checkLocalNameConf` / `checkInstance` (the Version is not checked at all) -/
+def nameLoad (f : NameFile) : Res Unit :=
+  forAllM (fun (kv : String × List Instance) =>
+    forAllM (fun (i : Instance) => failIf (i.host.length == 0 || i.port < 0 || i.port > 65535 || i.weight < 0)) kv.2) f.config
+
+/-! ## session_ticket_key.data -/
+structure TicketFile where
+  version : String
+  key : String
+
+def decodeTicket : JVal → Option TicketFile :=
+  dStruct fun g => do
+    let v ← occ (dStr) (g "Version")
+    let k ← occ (dStr) (g "SessionTicketKey")
+    pure { version := v, key := k }
+
+def isHexDigit (c : Char) : Bool := c.isDigit || ('a' ≤ c && c ≤ 'f') || ('A' ≤ c && c ≤ 'F')
+
+/-- `SessionTicketKeyConfCheck`: hex.DecodeString succeeds and yields 48 bytes -/
+def ticketCheck (f : TicketFile) : Res Unit :=
+  failIf (f.version.length == 0 || !(f.key.toList.all isHexDigit) || f.key.length != 96)
+
+/-- `SessionTicketKeyConfLoad`: when the file does not decode as JSON it is taken as a RAW key if it is exactly 48 bytes
+    long (then Version = the current time and the key is its hex dump: always valid) -/
+def ticketLoad (decoded : Option TicketFile) (fileBytes : Nat) : Res Unit :=
+  match decoded with
+  | some f => ticketCheck f
+  | none => failIf (fileBytes != 48)
+
+/-! ## BalTable.Init: gslb.data × cluster_table.data (bfe_balance/bal_table.go) -/
+
+/-- `gslbInit` + `backendInit` after both files loaded: every gslb cluster must have an entry in the cluster table;
+    `BalanceGslb.BackendInit` then initialises the sub-clusters THAT HAVE A BACKEND LIST and silently skips the others.
+    result: (cluster, sub-cluster, weight, number of backends or none) -/
+def balInit (g : GslbFile) (c : CtFile) : Res (List (String × String × Int × Option Nat)) :=
+  (gslbLoad g).bind fun _ =>
+  (ctLoad c).bind fun _ =>
+  (deref g.clusters).bind fun cs =>
+  (deref c.config).bind fun cfg =>
+  (forAllM (fun (kv : String × List (String × Int)) => failIf (!mapHas cfg kv.1)) cs).bind fun _ =>
+  .ok (cs.flatMap fun kv => kv.2.map fun sw =>
+    (kv.1, sw.1, sw.2, ((mapGet cfg kv.1).bind fun subs => mapGet subs sw.1).map (·.length)))
+
+/-- the cross reference one would expect: every sub-cluster that takes traffic has backends -/
+def balClosed (l : List (String × String × Int × Option Nat)) : Bool :=
+  l.all fun e => e.2.2.1 ≤ 0 || (match e.2.2.2 with | some n => n > 0 | none => false)
 
 /-! ## the cross-file check `ServerDataConf.check` -/
 structure ServerData where
@@ -816,35 +918,46 @@ def docBasicRule (r : BasicRuleFile) : Bool :=
   r.clusterName.isSome && !(r.hostname.isEmpty && r.path.isEmpty) &&
   r.hostname.all hostPatternOk && r.path.all pathPatternOk
 
+def docAdvRule (condOk : CondOk) (r : AdvRuleFile) : Bool :=
+  r.clusterName.isSome && (match r.cond with | some c => condOk c | none => false)
+
 def docRoute (condOk : CondOk) (f : RouteFile) : Bool :=
   f.version.isSome && (f.basic.isSome || f.adv.isSome) &&
   (f.basic.getD []).all (fun pr => pr.2.all docBasicRule && nodupKeys (pr.2.flatMap ruleKeys)) &&
-  (f.adv.getD []).all (fun pr => pr.2.all fun r => r.clusterName.isSome && (match r.cond with | some c => condOk c | none => false))
+  (f.adv.getD []).all (fun pr => pr.2.all (docAdvRule condOk))
 
+def protoOk (p : String) : Bool :=
+  let p := lowerAscii p
+  p == "http" || p == "tcp" || p == "ws" || p == "fcgi" || p == "h2c"
+
+def docBackendBasic (c : BackendBasic) : Bool :=
+  match c.protocol with
+  | some p => protoOk p
+  | none => true
+
+def docBackendCheck (cc : BackendCheck) : Bool :=
+  let s := cc.schem.getD "http"
+  (s == "http" || s == "tcp") &&
+  (s != "http" || (startsSlash (cc.uri.getD "/health_check") && statusCodeOk (cc.statusCode.getD 0))) &&
+  decide ((cc.succNum.getD 1) ≥ 1)
+
+def docHashConf (h : HashConf) : Bool :=
+  let s := h.hashStrategy.getD 1
+  (s == 0 || s == 1 || s == 2 || s == 3) &&
+  (!(s == 0 || s == 2) ||
+    (match h.hashHeader with
+     | none => false
+     | some hh => hh.length != 0 && (match getCookieKey hh with | some k => k.length != 0 | none => true)))
+
+def docGslbBasic (g : GslbBasic) : Bool :=
+  docHashConf (g.hashConf.getD { hashStrategy := none, hashHeader := none }) &&
+  (let b := upperAscii (g.balanceMode.getD "WRR"); b == "WRR" || b == "WLC")
+
+/-- one cluster of cluster_conf.data as documented (absent sections take their defaults) -/
 def docClusterConf (c : ClusterConf) : Bool :=
-  (match c.backendConf with
-   | some { protocol := some p } => ["http", "tcp", "ws", "fcgi", "h2c"].contains (lowerAscii p)
-   | _ => true) &&
-  (match c.checkConf with
-   | none => true
-   | some cc =>
-     let s := cc.schem.getD "http"
-     (s == "http" || s == "tcp") &&
-     (s != "http" || ((cc.uri.getD "/health_check").startsWith "/" && statusCodeOk (cc.statusCode.getD 0))) &&
-     (cc.succNum.getD 1) ≥ 1) &&
-  (match c.gslbBasic with
-   | none => true
-   | some g =>
-     (match g.hashConf with
-      | none => true
-      | some h =>
-        let s := h.hashStrategy.getD 1
-        (s == 0 || s == 1 || s == 2 || s == 3) &&
-        (!(s == 0 || s == 2) ||
-          (match h.hashHeader with
-           | none => false
-           | some hh => hh.length != 0 && (match getCookieKey hh with | some k => k.length != 0 | none => true)))) &&
-     (let b := upperAscii (g.balanceMode.getD "WRR"); b == "WRR" || b == "WLC"))
+  docBackendBasic (c.backendConf.getD { protocol := none }) &&
+  docBackendCheck (c.checkConf.getD { schem := none, uri := none, statusCode := none, succNum := none }) &&
+  docGslbBasic (c.gslbBasic.getD { hashConf := none, balanceMode := none })
 
 def docCluster (f : Option ClusterFile) : Bool :=
   match f with
@@ -862,11 +975,15 @@ def docBackend (b : Option Backend) : Bool :=
   | some b => b.name.isSome && b.addr.isSome && b.port.isSome && b.weight.isSome
   | none => false
 
+def posWeight (b : Option Backend) : Bool :=
+  match b with
+  | some { weight := some w, .. } => w > 0
+  | _ => false
+
 def docCt (f : CtFile) : Bool :=
   f.version.isSome &&
   match f.config with
-  | some cfg => cfg.all fun kv => kv.2.all fun sv =>
-      sv.2.all docBackend && sv.2.any fun b => match b with | some { weight := some w, .. } => w > 0 | _ => false
+  | some cfg => cfg.all fun kv => kv.2.all fun sv => sv.2.all docBackend && sv.2.any posWeight
   | none => false
 
 /-- cross references closed, as a boolean (the documented relation between the four files) -/
